@@ -153,20 +153,33 @@ func (cr *serverConnReader) handleTunneling(in io.ReadWriter) (io.ReadWriter, er
 				Header:        h,
 				ContentLength: -1,
 			}
-			var buf2 bytes.Buffer
-			res.Write(&buf2) //nolint:errcheck
-			cr.sc.nconn.SetWriteDeadline(time.Now().Add(cr.sc.s.WriteTimeout))
-			_, err = in.Write(buf2.Bytes())
-			if err != nil {
-				return nil, err
+			writeRes := func() error {
+				var buf2 bytes.Buffer
+				res.Write(&buf2) //nolint:errcheck
+				cr.sc.nconn.SetWriteDeadline(time.Now().Add(cr.sc.s.WriteTimeout))
+				_, err2 := in.Write(buf2.Bytes())
+				return err2
+			}
+
+			isWrite := (req.Method == http.MethodPost)
+
+			// the response to the GET request is sent after the channel has been registered,
+			// otherwise the POST request, that clients send as soon as they receive the response,
+			// might not find its GET channel.
+			if isWrite {
+				err = writeRes()
+				if err != nil {
+					return nil, err
+				}
 			}
 
 			cr.sc.httpReadBuf = buf
 
 			err = cr.sc.s.handleHTTPChannel(serverHandleHTTPChannelReq{
-				sc:       cr.sc,
-				write:    (req.Method == http.MethodPost),
-				tunnelID: req.Header.Get("X-Sessioncookie"),
+				sc:           cr.sc,
+				write:        isWrite,
+				tunnelID:     req.Header.Get("X-Sessioncookie"),
+				onRegistered: writeRes,
 			})
 			return nil, err
 
